@@ -161,6 +161,11 @@ def run(ctx):
     from props import C07_more
     C07_more.run(ctx, sys.modules[__name__])
     # <<< a_c07
+    # >>> w_buf (wave 5): buffer.rs at storage level -- op lists on the real BufferWindow over dirty / recycled buffers
+    # against the extracted storage model (coq/theories/BufStore.v) and a stream-level oracle; see props/bufstore.py
+    from props import bufstore
+    bufstore.run(ctx, "C07", 4000, 60000)
+    # <<< w_buf
     shrink(ctx)
 
 
